@@ -11,7 +11,9 @@
      1. sorting: [sort_levels] is THE strictly increasing list of the distinct values
         (strings: lexicographic by character code; numbers: numeric order);
      2. the levels validation of the box: accepted iff SET equality with the values present
-        (duplicates in levels= are accepted, missing values are ignored), otherwise ValueError;
+        (the box itself accepts duplicates in levels=, missing values are ignored), otherwise
+        ValueError; a repeated level is refused later, by set_data (pd.Categorical: "Categorical
+        categories must be unique"), see 5;
      3. the values of the calls C / T / S for every way of passing the arguments, and the aliases
         T(x, r, lv) = C(x, Treatment(r), lv), S(x, o, lv) = C(x, Sum(o), lv);
      4. the options on [code]: which level is left out, when the call is refused, the labels;
@@ -286,9 +288,10 @@ Proof.
     + exact (Permutation_in s (Permutation_sym H) Hs).
 Qed.
 
-(** ... but duplicate-freeness is NOT checked: levels=["a"; "b"; "a"] is accepted for data a, b.
-    The reading "refused unless levels= is a permutation of the distinct values" is false. *)
-Example levels_duplicates_accepted_refuted :
+(** ... but duplicate-freeness is NOT checked BY THE BOX: levels=["a"; "b"; "a"] is accepted for
+    data a, b (CategoricalBox only compares sets).  The repetition is refused one step later, when
+    the component is coded ([levels_duplicates_component_refused] below, section 5). *)
+Example levels_duplicates_box_accepted :
   exists l d, ~ Permutation l (sort_levels false (present d)) /\ ~ NoDup l /\
               mk_box false None d None (Some l) = Ok (PBox false d None (Some l)).
 Proof.
@@ -967,48 +970,61 @@ Definition ocoded_row (enc : encoding) (spans : bool) (lv : list string) (ox : o
 Lemma ocoded_row_Some enc spans lv x : ocoded_row enc spans lv (Some x) = coded_row enc spans lv x.
 Proof. destruct enc, spans; reflexivity. Qed.
 
-(** The levels the model works with are duplicate-free unless levels= (or the declared order)
-    repeats a level. *)
+(** The levels of a box are duplicate-free when levels= (or the declared order) is; the sorted
+    distinct values always are. *)
 Lemma box_comp_levels_NoDup num d lvo :
   (forall l, lvo = Some l -> NoDup l) -> NoDup (box_comp_levels num d lvo).
 Proof. intros H. destruct lvo as [l|]; [apply H; reflexivity|apply sort_levels_NoDup]. Qed.
 
-(** A component whose value is a box, on [set_data_comp]: it is accepted exactly when the option
-    of its encoding is acceptable for its levels (otherwise ValueError), and then
+Lemma box_comp_levels_None_NoDup num d : NoDup (box_comp_levels num d None).
+Proof. apply sort_levels_NoDup. Qed.
+
+Lemma option_ok_dec e spans lv : option_ok e spans lv \/ ~ option_ok e spans lv.
+Proof.
+  unfold option_ok. destruct (option_level e) as [s|]; [|left; exact I].
+  destruct (consults_reference e spans).
+  - destruct (in_dec string_dec s lv) as [H|H]; [left; intros _; exact H|right; intros H'; apply H, H'; reflexivity].
+  - left. discriminate.
+Qed.
+
+(** A component whose value is a box, on [set_data_comp]: it is accepted exactly when its levels
+    are duplicate-free (pd.Categorical refuses repeated categories) and the option of its encoding
+    is acceptable for its levels (otherwise ValueError), and then
       - its levels are levels= in the given order / the sorted distinct values,
       - its contrast labels are the kept levels (with "mean" in front under full Sum coding),
       - its labels are name[l] for the contrast labels l,
       - row i is the coded row of the i-th value.
-    The clauses about labels and entries need duplicate-free levels (automatic without levels=);
-    the entries of a full Sum coding need at least one level ([entries_premise]). *)
+    Only the entries of a full Sum coding need a further premise: at least one level
+    ([entries_premise]). *)
 Theorem box_component t spans nrows num d enc lvo :
   tc_kind t = KCategoric -> tc_value t = PBox num d enc lvo ->
   let e := box_comp_encoding enc in
   let lv := box_comp_levels num d lvo in
-  (option_ok e spans lv ->
+  (NoDup lv -> option_ok e spans lv ->
    exists dc cm,
      set_data_comp t spans nrows = Ok dc /\
      dc_t dc = t /\ dc_spans dc = spans /\ dc_levels dc = lv /\
      dc_contrast dc = Some cm /\ code e spans lv = Ok cm /\
      List.length (dc_rows dc) = List.length d /\
-     (NoDup lv ->
-      clabels cm = contrast_labels e spans lv /\
-      dc_labels dc = Some (map (comp_label t) (contrast_labels e spans lv)) /\
-      (entries_premise e spans lv -> dc_rows dc = map (ocoded_row e spans lv) d))) /\
-  (~ option_ok e spans lv -> set_data_comp t spans nrows = Err EValue).
+     clabels cm = contrast_labels e spans lv /\
+     dc_labels dc = Some (map (comp_label t) (contrast_labels e spans lv)) /\
+     (entries_premise e spans lv -> dc_rows dc = map (ocoded_row e spans lv) d)) /\
+  (~ (NoDup lv /\ option_ok e spans lv) -> set_data_comp t spans nrows = Err EValue).
 Proof.
   intros Hk Hv e lv.
   assert (Hset : set_data_comp t spans nrows =
+                 if negb (dupfree lv) then Err EValue else
                  (do cm <- code e spans lv;
                   Ok (DC t lv (Some cm) (code_rows (cmatrix cm) (contrast_width cm) (level_codes lv d))
                          (Some (map (comp_label t) (clabels cm))) spans))).
-  { unfold set_data_comp. rewrite Hk, Hv. reflexivity. }
+  { exact (set_data_comp_box t spans nrows num d enc lvo Hk Hv). }
   destruct (code_accept_iff e spans lv) as [Hok Hbad]. split.
-  - intros Ho. destruct (Hok Ho) as (cm & Hcm). rewrite Hset, Hcm. cbn [bind].
+  - intros Hnd Ho. destruct (Hok Ho) as (cm & Hcm).
+    rewrite Hset, (proj2 (dupfree_iff lv) Hnd), Hcm. cbn [negb bind].
     eexists. exists cm. split; [reflexivity|]. cbn [dc_t dc_spans dc_levels dc_contrast dc_rows dc_labels].
     repeat (split; [reflexivity|]). split.
     { unfold code_rows, level_codes. rewrite !map_length. reflexivity. }
-    intros Hnd. pose proof (code_labels e spans lv cm Hnd Hcm) as Hl.
+    pose proof (code_labels e spans lv cm Hnd Hcm) as Hl.
     split; [assumption|]. split; [rewrite Hl; reflexivity|].
     intros Hne. rewrite code_rows_map. unfold level_codes. rewrite map_map. apply map_ext. intros [x|].
     + rewrite ocoded_row_Some. apply code_entries; assumption.
@@ -1027,7 +1043,62 @@ Proof.
       rewrite W. unfold coded_row, ocoded_row, sum_row, osum_row.
       destruct e, spans; cbn [List.length repeat omeanc]; rewrite ?map_length; try f_equal;
         symmetry; apply map_const_repeat; reflexivity.
-  - intros Hn. rewrite Hset, (Hbad Hn). reflexivity.
+  - intros Hn. rewrite Hset. destruct (dupfree lv) eqn:Ed; [|reflexivity]. cbn [negb].
+    rewrite Hbad; [reflexivity|]. intros Ho. apply Hn. split; [apply dupfree_iff; exact Ed|exact Ho].
+Qed.
+
+(** The two directions read as an equivalence: acceptance is exactly "duplicate-free levels and an
+    acceptable option"; every refusal is a ValueError. *)
+Corollary box_component_ok_iff t spans nrows num d enc lvo :
+  tc_kind t = KCategoric -> tc_value t = PBox num d enc lvo ->
+  let e := box_comp_encoding enc in
+  let lv := box_comp_levels num d lvo in
+  ((exists dc, set_data_comp t spans nrows = Ok dc) <-> NoDup lv /\ option_ok e spans lv) /\
+  (forall k, set_data_comp t spans nrows = Err k -> k = EValue).
+Proof.
+  intros Hk Hv e lv. destruct (box_component t spans nrows num d enc lvo Hk Hv) as [Bok Bbad].
+  fold e lv in Bok, Bbad.
+  assert (D : (NoDup lv /\ option_ok e spans lv) \/ ~ (NoDup lv /\ option_ok e spans lv)).
+  { destruct (NoDup_str_dec lv); destruct (option_ok_dec e spans lv); tauto. }
+  split.
+  - split.
+    + intros (dc & Hdc). destruct D as [D|D]; [exact D|]. rewrite (Bbad D) in Hdc. discriminate.
+    + intros [Hnd Ho]. destruct (Bok Hnd Ho) as (dc & _ & Hdc & _). eauto.
+  - intros k Hk'. destruct D as [[Hnd Ho]|D].
+    + destruct (Bok Hnd Ho) as (dc & _ & Hdc & _). congruence.
+    + rewrite (Bbad D) in Hk'. congruence.
+Qed.
+
+(** A repeated level is refused, whatever the encoding and the coding. *)
+Corollary box_duplicate_levels_refused t spans nrows num d enc l :
+  tc_kind t = KCategoric -> tc_value t = PBox num d enc (Some l) -> ~ NoDup l ->
+  set_data_comp t spans nrows = Err EValue.
+Proof.
+  intros Hk Hv Hn. apply (box_component t spans nrows num d enc (Some l) Hk Hv).
+  intros [Hnd _]. exact (Hn Hnd).
+Qed.
+
+(** Without levels= (and without a declared order) the levels are the sorted distinct values, which
+    never repeat: the acceptance condition is the one on the option alone. *)
+Corollary box_component_sorted t spans nrows num d enc :
+  tc_kind t = KCategoric -> tc_value t = PBox num d enc None ->
+  let e := box_comp_encoding enc in
+  let lv := sort_levels num (present d) in
+  (option_ok e spans lv ->
+   exists dc cm,
+     set_data_comp t spans nrows = Ok dc /\
+     dc_t dc = t /\ dc_spans dc = spans /\ dc_levels dc = lv /\
+     dc_contrast dc = Some cm /\ code e spans lv = Ok cm /\
+     List.length (dc_rows dc) = List.length d /\
+     clabels cm = contrast_labels e spans lv /\
+     dc_labels dc = Some (map (comp_label t) (contrast_labels e spans lv)) /\
+     (entries_premise e spans lv -> dc_rows dc = map (ocoded_row e spans lv) d)) /\
+  (~ option_ok e spans lv -> set_data_comp t spans nrows = Err EValue).
+Proof.
+  intros Hk Hv e lv. destruct (box_component t spans nrows num d enc None Hk Hv) as [Bok Bbad].
+  pose proof (sort_levels_NoDup num (present d)) as Hnd. split.
+  - intros Ho. exact (Bok Hnd Ho).
+  - intros Hn. apply Bbad. intros [_ Ho]. exact (Hn Ho).
 Qed.
 
 (** What "the coded row" says, entry by entry.  Treatment: under the label of a kept level l the
@@ -1094,25 +1165,25 @@ Proof. destruct o, lv; reflexivity. Qed.
 (** The whole chain, for a series x (strings with an optional declared order, or integers), an
     optional encoding and optional levels=:
       box_of x enc lv  >>=  (component with that value)  >>=  set_data_comp
-    is accepted iff (a) the given levels are, as a set, the values present and (b) the option of the
-    encoding is acceptable; both refusals are ValueError.  When accepted, everything is the
-    closed-form function of (values, declared order, encoding, levels=, spans). *)
+    is accepted iff (a) the given levels are, as a set, the values present, (b) the levels do not
+    repeat an entry and (c) the option of the encoding is acceptable; all refusals are ValueError.
+    When accepted, everything is the closed-form function of (values, declared order, encoding,
+    levels=, spans). *)
 Theorem call_component x num o d enc lv name src resp spans nrows :
   series_strings x = Ok (num, o, d) ->
   let e := box_comp_encoding enc in
   let lvs := call_levels num o d lv in
   let run := do v <- box_of x enc lv;
              set_data_comp (TC name src KCategoric v [] resp None) spans nrows in
-  (levels_valid (box_levels o lv) d -> option_ok e spans lvs ->
+  (levels_valid (box_levels o lv) d -> NoDup lvs -> option_ok e spans lvs ->
    exists dc cm,
      run = Ok dc /\
      tc_value (dc_t dc) = PBox num d enc (box_levels o lv) /\
      dc_levels dc = lvs /\ dc_contrast dc = Some cm /\ code e spans lvs = Ok cm /\
-     (NoDup lvs ->
-      clabels cm = contrast_labels e spans lvs /\
-      dc_labels dc = Some (map (fun l => (name ++ "[" ++ l ++ "]")%string) (contrast_labels e spans lvs)) /\
-      (entries_premise e spans lvs -> dc_rows dc = map (ocoded_row e spans lvs) d))) /\
-  (~ (levels_valid (box_levels o lv) d /\ option_ok e spans lvs) -> run = Err EValue).
+     clabels cm = contrast_labels e spans lvs /\
+     dc_labels dc = Some (map (fun l => (name ++ "[" ++ l ++ "]")%string) (contrast_labels e spans lvs)) /\
+     (entries_premise e spans lvs -> dc_rows dc = map (ocoded_row e spans lvs) d)) /\
+  (~ (levels_valid (box_levels o lv) d /\ NoDup lvs /\ option_ok e spans lvs) -> run = Err EValue).
 Proof.
   intros Hx e lvs run. unfold run. rewrite (box_of_series x enc lv num o d Hx).
   destruct (mk_box_spec num o d enc lv) as [Hok Hbad].
@@ -1120,8 +1191,8 @@ Proof.
   destruct (box_component t spans nrows num d enc (box_levels o lv) eq_refl eq_refl) as [Bok Bbad].
   fold e in Bok, Bbad. rewrite call_levels_box in Bok, Bbad. fold lvs in Bok, Bbad.
   split.
-  - intros Hv Ho. rewrite (Hok Hv). cbn [bind]. fold t.
-    destruct (Bok Ho) as (dc & cm & Hset & Ht & _ & Hlv & Hc & Hcode & _ & Hrest).
+  - intros Hv Hnd Ho. rewrite (Hok Hv). cbn [bind]. fold t.
+    destruct (Bok Hnd Ho) as (dc & cm & Hset & Ht & _ & Hlv & Hc & Hcode & _ & Hrest).
     exists dc, cm. split; [assumption|]. rewrite Ht. split; [reflexivity|].
     split; [assumption|]. split; [assumption|]. split; [assumption|]. exact Hrest.
   - intros Hn. assert (D : levels_valid (box_levels o lv) d \/ ~ levels_valid (box_levels o lv) d).
@@ -1129,7 +1200,34 @@ Proof.
       destruct (match box_levels o lv with Some l => same_set l (present d) | None => true end);
         [left; apply Hd; reflexivity|right; intros Hv; apply Hd in Hv; discriminate]. }
     destruct D as [Hv|Hv]; [|rewrite (Hbad Hv); reflexivity].
-    rewrite (Hok Hv). cbn [bind]. fold t. apply Bbad. intros Ho. apply Hn. split; assumption.
+    rewrite (Hok Hv). cbn [bind]. fold t. apply Bbad. intros [Hnd Ho]. apply Hn. auto.
+Qed.
+
+(** Without levels= and without a declared order nothing can repeat: the sorted distinct values
+    are the levels, and only the option of the encoding can be refused. *)
+Corollary call_component_sorted x num d enc name src resp spans nrows :
+  series_strings x = Ok (num, None, d) ->
+  let e := box_comp_encoding enc in
+  let lvs := sort_levels num (present d) in
+  let run := do v <- box_of x enc None;
+             set_data_comp (TC name src KCategoric v [] resp None) spans nrows in
+  (option_ok e spans lvs ->
+   exists dc cm,
+     run = Ok dc /\
+     tc_value (dc_t dc) = PBox num d enc None /\
+     dc_levels dc = lvs /\ dc_contrast dc = Some cm /\ code e spans lvs = Ok cm /\
+     clabels cm = contrast_labels e spans lvs /\
+     dc_labels dc = Some (map (fun l => (name ++ "[" ++ l ++ "]")%string) (contrast_labels e spans lvs)) /\
+     (entries_premise e spans lvs -> dc_rows dc = map (ocoded_row e spans lvs) d)) /\
+  (~ option_ok e spans lvs -> run = Err EValue).
+Proof.
+  intros Hx e lvs run.
+  destruct (call_component x num None d enc None name src resp spans nrows Hx) as [Cok Cbad].
+  pose proof (sort_levels_NoDup num (present d)) as Hnd.
+  assert (Hv : levels_valid (box_levels None None) d) by (intros l E; discriminate E).
+  split.
+  - intros Ho. exact (Cok Hv Hnd Ho).
+  - intros Hn. apply Cbad. intros (_ & _ & Ho). exact (Hn Ho).
 Qed.
 
 (** Defaults under levels=: the reference of T(x, levels=lv) is the first element of lv, the
@@ -1243,7 +1341,9 @@ Proof. destruct c; exact I. Qed.
 
 (** FLAGSHIP 1: f(x, a, levels=lv) for f among C, T, S, over a column x of the frame, lv a
     variable holding a list of levels.  Refused (ValueError) unless lv is, as a set, the values
-    present in x and the named reference / omitted level (when consulted) is in lv.  Otherwise:
+    present in x, lv does not repeat an entry (so: lv is a PERMUTATION of the distinct values,
+    [levels_accept_perm_str], [levels_accept_perm_ints]) and the named reference / omitted level (when consulted) is in lv.
+    Otherwise:
     the levels are lv in the given order; the level left out is the named one, by default the
     first element of lv (Treatment) / the last (Sum); labels and entries follow. *)
 Theorem CTS_levels_design cx data resp f xn col a lvn l va enc num o d spans nrows :
@@ -1255,15 +1355,14 @@ Theorem CTS_levels_design cx data resp f xn col a lvn l va enc num o d spans nro
   let lz := LzCall f [LzVar xn; a] [("levels", LzVar lvn)] in
   let run := do t <- set_type_comp cx data resp (CCall lz); set_data_comp t spans nrows in
   let e := box_comp_encoding enc in
-  (levels_valid (Some l) d -> option_ok e spans l ->
+  (levels_valid (Some l) d -> NoDup l -> option_ok e spans l ->
    exists dc cm,
      run = Ok dc /\ tc_value (dc_t dc) = PBox num d enc (Some l) /\
      dc_levels dc = l /\ dc_contrast dc = Some cm /\ code e spans l = Ok cm /\
-     (NoDup l ->
-      clabels cm = contrast_labels e spans l /\
-      dc_labels dc = Some (map (fun s => (lazy_str lz ++ "[" ++ s ++ "]")%string) (contrast_labels e spans l)) /\
-      (entries_premise e spans l -> dc_rows dc = map (ocoded_row e spans l) d))) /\
-  (~ (levels_valid (Some l) d /\ option_ok e spans l) -> run = Err EValue).
+     clabels cm = contrast_labels e spans l /\
+     dc_labels dc = Some (map (fun s => (lazy_str lz ++ "[" ++ s ++ "]")%string) (contrast_labels e spans l)) /\
+     (entries_premise e spans l -> dc_rows dc = map (ocoded_row e spans l) d)) /\
+  (~ (levels_valid (Some l) d /\ NoDup l /\ option_ok e spans l) -> run = Err EValue).
 Proof.
   intros Hf Ha E Hcol Hx Hva Henc Hl lz run e.
   destruct (CTS_design_forms cx data resp f xn a lvn spans nrows Hf Ha) as (_ & _ & H & _).
@@ -1278,7 +1377,9 @@ Proof.
 Qed.
 
 (** FLAGSHIP 2: f(x, a) without levels=.  The levels are the declared categories of an ORDERED
-    column in their declared order (they must all occur), else the sorted distinct values. *)
+    column in their declared order (they must all occur, and must not repeat -- which no pandas
+    Categorical does), else the sorted distinct values (for which both conditions are automatic:
+    [CTS_design_unordered]). *)
 Theorem CTS_design cx data resp f xn col a va enc num o d spans nrows :
   In f ["C"; "T"; "S"] -> stateless a = true ->
   let E := ECtx data (d_extra cx) (d_sqrt cx) true in
@@ -1288,15 +1389,14 @@ Theorem CTS_design cx data resp f xn col a va enc num o d spans nrows :
   let run := do t <- set_type_comp cx data resp (CCall lz); set_data_comp t spans nrows in
   let e := box_comp_encoding enc in
   let lvs := match o with Some cats => cats | None => sort_levels num (present d) end in
-  (levels_valid o d -> option_ok e spans lvs ->
+  (levels_valid o d -> NoDup lvs -> option_ok e spans lvs ->
    exists dc cm,
      run = Ok dc /\ tc_value (dc_t dc) = PBox num d enc o /\
      dc_levels dc = lvs /\ dc_contrast dc = Some cm /\ code e spans lvs = Ok cm /\
-     (NoDup lvs ->
-      clabels cm = contrast_labels e spans lvs /\
-      dc_labels dc = Some (map (fun s => (lazy_str lz ++ "[" ++ s ++ "]")%string) (contrast_labels e spans lvs)) /\
-      (entries_premise e spans lvs -> dc_rows dc = map (ocoded_row e spans lvs) d))) /\
-  (~ (levels_valid o d /\ option_ok e spans lvs) -> run = Err EValue).
+     clabels cm = contrast_labels e spans lvs /\
+     dc_labels dc = Some (map (fun s => (lazy_str lz ++ "[" ++ s ++ "]")%string) (contrast_labels e spans lvs)) /\
+     (entries_premise e spans lvs -> dc_rows dc = map (ocoded_row e spans lvs) d)) /\
+  (~ (levels_valid o d /\ NoDup lvs /\ option_ok e spans lvs) -> run = Err EValue).
 Proof.
   intros Hf Ha E Hcol Hx Hva Henc lz run e lvs.
   destruct (CTS_design_forms cx data resp f xn a "" spans nrows Hf Ha) as (_ & H & _).
@@ -1313,6 +1413,82 @@ Qed.
 (* without a declared order the validation is vacuous and the levels are duplicate-free *)
 Corollary unordered_levels_valid d : levels_valid None d.
 Proof. intros l E. discriminate E. Qed.
+
+(** FLAGSHIP 2 for a column WITHOUT a declared order (plain strings, integers): the levels are the
+    sorted distinct values, the validation and the duplicate check are automatic; only the option
+    of the encoding can be refused. *)
+Corollary CTS_design_unordered cx data resp f xn col a va enc num d spans nrows :
+  In f ["C"; "T"; "S"] -> stateless a = true ->
+  let E := ECtx data (d_extra cx) (d_sqrt cx) true in
+  assoc xn data = Some col -> series_strings (col_value col) = Ok (num, None, d) ->
+  value E a = Ok va -> second_arg_encoding f va = Ok enc ->
+  let lz := LzCall f [LzVar xn; a] [] in
+  let run := do t <- set_type_comp cx data resp (CCall lz); set_data_comp t spans nrows in
+  let e := box_comp_encoding enc in
+  let lvs := sort_levels num (present d) in
+  (option_ok e spans lvs ->
+   exists dc cm,
+     run = Ok dc /\ tc_value (dc_t dc) = PBox num d enc None /\
+     dc_levels dc = lvs /\ dc_contrast dc = Some cm /\ code e spans lvs = Ok cm /\
+     clabels cm = contrast_labels e spans lvs /\
+     dc_labels dc = Some (map (fun s => (lazy_str lz ++ "[" ++ s ++ "]")%string) (contrast_labels e spans lvs)) /\
+     (entries_premise e spans lvs -> dc_rows dc = map (ocoded_row e spans lvs) d)) /\
+  (~ option_ok e spans lvs -> run = Err EValue).
+Proof.
+  intros Hf Ha E Hcol Hx Hva Henc lz run e lvs.
+  destruct (CTS_design cx data resp f xn col a va enc num None d spans nrows Hf Ha Hcol Hx Hva Henc)
+    as [Cok Cbad].
+  pose proof (sort_levels_NoDup num (present d)) as Hnd. split.
+  - intros Ho. exact (Cok (unordered_levels_valid d) Hnd Ho).
+  - intros Hn. apply Cbad. intros (_ & _ & Ho). exact (Hn Ho).
+Qed.
+
+(** The acceptance condition of FLAGSHIP 1 on the levels, for string and for integer columns:
+    "same set and no repetition" is "a permutation of the sorted distinct values". *)
+Theorem levels_accept_perm_str l d :
+  levels_valid (Some l) d /\ NoDup l <-> Permutation l (sort_levels false (present d)).
+Proof.
+  split.
+  - intros [Hv Hnd]. apply (levels_valid_perm_str l d Hnd). exact Hv.
+  - intros H. assert (Hnd : NoDup l).
+    { eapply Permutation_NoDup; [apply Permutation_sym; exact H|apply sort_levels_NoDup]. }
+    split; [|exact Hnd]. apply (levels_valid_perm_str l d Hnd). exact H.
+Qed.
+
+Theorem levels_accept_perm_ints l xs :
+  levels_valid (Some l) (int_strings xs) /\ NoDup l
+  <-> Permutation l (sort_levels true (present (int_strings xs))).
+Proof.
+  split.
+  - intros [Hv Hnd]. apply (levels_valid_perm_ints l xs Hnd). exact Hv.
+  - intros H. assert (Hnd : NoDup l).
+    { eapply Permutation_NoDup; [apply Permutation_sym; exact H|apply sort_levels_NoDup]. }
+    split; [|exact Hnd]. apply (levels_valid_perm_ints l xs Hnd). exact H.
+Qed.
+
+(** The box accepts a repeated level, the component built from it is refused: end to end through
+    [set_type_comp] + [set_data_comp] on a concrete frame, C(x, levels=dup) with
+    dup = ["a"; "b"; "a"] over a column x holding b, a. *)
+Theorem levels_duplicates_component_refused :
+  exists cx data lz t num d enc l,
+    set_type_comp cx data false (CCall lz) = Ok t /\
+    tc_kind t = KCategoric /\ tc_value t = PBox num d enc (Some l) /\
+    levels_valid (Some l) d /\ ~ NoDup l /\
+    forall spans nrows, set_data_comp t spans nrows = Err EValue.
+Proof.
+  exists (DCtx [("dup", PStrList ["a"; "b"; "a"])] (fun r => r)),
+         [("x", ColStr None [Some "b"; Some "a"])],
+         (LzCall "C" [LzVar "x"] [("levels", LzVar "dup")]).
+  eexists. exists false, [Some "b"; Some "a"], None, ["a"; "b"; "a"].
+  split; [vm_compute; reflexivity|]. split; [reflexivity|]. split; [reflexivity|].
+  assert (Hn : ~ NoDup ["a"; "b"; "a"]).
+  { intros H. inversion H as [|? ? Hin _]; subst. apply Hin. right; left; reflexivity. }
+  split; [|split; [exact Hn|]].
+  - intros l' E s. injection E as <-. simpl. intuition (try discriminate; try congruence).
+  - intros spans nrows.
+    eapply (box_duplicate_levels_refused _ spans nrows false _ None ["a"; "b"; "a"]);
+      [reflexivity|reflexivity|exact Hn].
+Qed.
 
 (* ------------------------------------------------------------------------------------------ *)
 (** * 6. Examples (all by computation) *)
@@ -1449,15 +1625,17 @@ Module Examples.
           [["0"; "1"; "0"]; ["0"; "0"; "1"]; ["1"; "0"; "0"]; ["0"; "0"; "1"]]).
   Proof. vm_compute. reflexivity. Qed.
 
-  (** REFUTED: levels= with a repeated level is accepted; the second column labelled [a] is not
-      an indicator of anything (always 0), and the labels repeat. *)
-  Example duplicate_levels_accepted :
-    view (run (LzCall "C" [LzVar "x"; LzVar "Treatment"; LzVar "dup"] []) true)
-    = Ok (["a"; "b"; "a"; "c"], ["a"; "b"; "a"; "c"],
-          Some ["C(x, Treatment, dup)[a]"; "C(x, Treatment, dup)[b]"; "C(x, Treatment, dup)[a]";
-                "C(x, Treatment, dup)[c]"],
-          [["0"; "1"; "0"; "0"]; ["0"; "0"; "0"; "1"]; ["1"; "0"; "0"; "0"]; ["0"; "0"; "0"; "1"]]).
-  Proof. vm_compute. reflexivity. Qed.
+  (** levels= with a repeated level: the box is made (typing succeeds), coding the component is
+      refused under either coding (pd.Categorical: "Categorical categories must be unique"). *)
+  Example duplicate_levels_refused :
+    (exists t, set_type_comp cx data false (CCall (LzCall "C" [LzVar "x"; LzVar "Treatment"; LzVar "dup"] []))
+               = Ok t /\
+               tc_value t = PBox false [Some "b"; Some "c"; Some "a"; Some "c"] (Some (Treatment None))
+                                 (Some ["a"; "b"; "a"; "c"])) /\
+    run (LzCall "C" [LzVar "x"; LzVar "Treatment"; LzVar "dup"] []) true = Err EValue /\
+    run (LzCall "C" [LzVar "x"; LzVar "Treatment"; LzVar "dup"] []) false = Err EValue /\
+    run (LzCall "S" [LzVar "x"] [("levels", LzVar "dup")]) false = Err EValue.
+  Proof. split; [eexists; split; vm_compute; reflexivity|]. repeat split; vm_compute; reflexivity. Qed.
 
   (* the hypotheses of FLAGSHIP 1 are satisfiable, and its conclusion on the instance
      S(x, "a", levels=lv): omitted "a", kept c, b in the order of lv *)
@@ -1476,9 +1654,9 @@ Module Examples.
     - right; right; left; reflexivity.
     - destruct H as (dc & cm & Hrun & _ & Hlv & Hc & _ & Hrest).
       + intros l' E s. injection E as <-. simpl. intuition (try discriminate; try congruence).
+      + repeat constructor; simpl; intuition discriminate.
       + intros _. right; left; reflexivity.
       + exists dc, cm. destruct Hrest as (Hl & _ & Hrows).
-        { repeat constructor; simpl; intuition discriminate. }
         split; [exact Hrun|]. split; [exact Hlv|]. split; [exact Hc|]. split; [exact Hl|].
         apply Hrows. intro H. discriminate H.
   Qed.
@@ -1547,7 +1725,10 @@ Print Assumptions sort_levels_ints.
 Print Assumptions mk_box_spec.
 Print Assumptions levels_valid_perm_str.
 Print Assumptions levels_valid_perm_ints.
-Print Assumptions levels_duplicates_accepted_refuted.
+Print Assumptions levels_duplicates_box_accepted.
+Print Assumptions levels_duplicates_component_refused.
+Print Assumptions levels_accept_perm_str.
+Print Assumptions levels_accept_perm_ints.
 Print Assumptions call_C.
 Print Assumptions call_T.
 Print Assumptions call_S.
@@ -1564,11 +1745,16 @@ Print Assumptions code_labels_pos.
 Print Assumptions code_labels.
 Print Assumptions code_entries.
 Print Assumptions box_component.
+Print Assumptions box_component_ok_iff.
+Print Assumptions box_duplicate_levels_refused.
+Print Assumptions box_component_sorted.
 Print Assumptions ocoded_row_entries.
 Print Assumptions box_component_levels.
 Print Assumptions column_component_levels.
 Print Assumptions call_component.
+Print Assumptions call_component_sorted.
 Print Assumptions CTS_design_component.
 Print Assumptions CTS_design_forms.
 Print Assumptions CTS_levels_design.
 Print Assumptions CTS_design.
+Print Assumptions CTS_design_unordered.
